@@ -149,13 +149,23 @@ def run_part(ctx, thorough):
         t_[0] = time.time()
 
     beh = ctx.sub("beh")
-    tlc.stage(ctx)
-    conn_insts = [i for i in CONN_INSTANCES if thorough or i not in ("jointL", "jointM")]
-    big_first = sorted(list(LIM_INSTANCES), key=lambda i: i not in ("vsa", "sub4"))
-    jobs = [(_conn_one, (ctx, i, beh)) for i in sorted(conn_insts, key=lambda i: not i.startswith("joint"))] + [(_lim_one, (ctx, i, beh)) for i in big_first] + \
-           [(_conc_one, (ctx, i)) for i in CONC_INSTANCES]
-    with cf.ProcessPoolExecutor(max_workers=4) as ex:      # 4 x 1 TLC worker
-        out = list(ex.map(_job, jobs))
+    reuse = os.environ.get("VERIF_C03RATE_BEH")     # developer shortcut (mutation self-tests): behaviours of an earlier run
+    if reuse and os.path.exists(os.path.join(reuse, "stats.json")):
+        import json
+        beh = reuse
+        with open(os.path.join(reuse, "stats.json")) as f:
+            out = json.load(f)
+    else:
+        tlc.stage(ctx)
+        conn_insts = [i for i in CONN_INSTANCES if thorough or i not in ("jointL", "jointM")]
+        big_first = sorted(list(LIM_INSTANCES), key=lambda i: i not in ("vsa", "sub4"))
+        jobs = [(_conn_one, (ctx, i, beh)) for i in sorted(conn_insts, key=lambda i: not i.startswith("joint"))] + \
+               [(_lim_one, (ctx, i, beh)) for i in big_first] + [(_conc_one, (ctx, i)) for i in CONC_INSTANCES]
+        with cf.ProcessPoolExecutor(max_workers=4) as ex:      # 4 x 1 TLC worker
+            out = list(ex.map(_job, jobs))
+        import json
+        with open(os.path.join(beh, "stats.json"), "w") as f:
+            json.dump(out, f)
     lim = [o for o in out if o["inst"] in LIM_INSTANCES]
     for o in lim + [x for x in out if x["inst"] in CONN_INSTANCES]:
         o["replayed_share"] = "sample" if (ctx.quick and o["inst"] in QUICK_SAMPLE) else "all"
